@@ -839,6 +839,37 @@ static void build(vf::Plan &plan, const vf::Opts &o)
                    });
     }
     {
+        // width sweep: every field width 1..WMAX (pad runs of every length, through every sink's own padding loop /
+        // block writer) x alignment x pad kind x leading literal x arguments of every kind
+        static const char *WALIGN[3] = {"", "<", ">"};
+        static const char *WPAD[3] = {"", "_*", "0"};
+        static const char *WLIT[2] = {"", "ab"};
+        static const unsigned WARGS[8] = {1, 2, 4, 14, 17, 20, 25, 26};  // int 42, int -7, long long, double, bool, "\u20ac", "abc", ST::string
+        const unsigned WMAX = th ? 1100 : 330;
+        auto mk = [WMAX](uint64_t i, unsigned &ai) {
+            ai = WARGS[vf::take(i, 8)];
+            std::string f = WLIT[vf::take(i, 2)];
+            f += "{";
+            f += WALIGN[vf::take(i, 3)];
+            f += WPAD[vf::take(i, 3)];
+            f += std::to_string(1 + (unsigned)vf::take(i, WMAX));
+            f += "}";
+            return f;
+        };
+        plan.stage(strf("format:width sweep 1..%u x 3 alignments x 3 pad kinds x {\"\",\"ab\"} x 8 arguments, all sinks", WMAX),
+                   (uint64_t)8 * 2 * 3 * 3 * WMAX,
+                   [mk](uint64_t i, Ctx &c) {
+                       unsigned ai;
+                       std::string f = mk(i, ai);
+                       dispatch1(ai, c, f);
+                   },
+                   [mk](uint64_t i) {
+                       unsigned ai;
+                       std::string f = mk(i, ai);
+                       return show(f, ARG1_DESC[ai]);
+                   });
+    }
+    {
         const unsigned L = th ? 4 : 3;
         plan.stage(strf("insert:B^<=%u(17 scalars) into 4 stream types", L), vf::seq_count(NB, L),
                    [L](uint64_t i, Ctx &c) { check_insert_all(c, seq_B(i, L)); },
